@@ -234,6 +234,50 @@ def run(tier):
                    "`%s`%s recurses on the native stack with a depth the script controls (prototype / proxy / bound-function chains, nested values) and has no depth guard: a deep enough structure overflows the stack and aborts the process"
                    % (key, (" (cycle of %d functions)" % len(comp)) if len(comp) > 1 else ""))
 
+    # ---------------- R1c the VM's own call path trampolines every kind of callee that runs script
+    # Interpreter::call_function_with_new_target says, per JsFunction variant, what calling it means.  A variant
+    # whose arm there hands control to a function from which BytecodeVM::run is reachable (it runs bytecode, or
+    # unwraps to another callee) executes script; when such a callee is called FROM bytecode, the VM must push a
+    # trampoline frame for it (an explicit arm in setup_trampoline_call) - the generic fallback runs it in a
+    # nested VM on the native stack, inside one step(), out of reach of the host's step and depth budgets.
+    ck.rule("R1c.trampoline-covers", "every JsFunction variant whose interpreter-side call runs script has an arm of its own in BytecodeVM::setup_trampoline_call", floor=4)
+    JF = "value::JsFunction"
+
+    def widest_switch(fn_suffix):
+        f0 = fx.one(fn_suffix)
+        best = None
+        for g in fx.body_group(f0):
+            for sw in M.enum_switches(fx, g):
+                if sw[1] == JF and (best is None or len(sw[3]) > len(best[1][3])):
+                    best = (g, sw)
+        return best
+    ia = widest_switch("Interpreter::call_function_with_new_target")
+    va = widest_switch("BytecodeVM::setup_trampoline_call")
+    if ck.anchor(ia is not None and va is not None, "match on JsFunction in call_function_with_new_target and in setup_trampoline_call"):
+        g, sw = ia
+        vm_arms = set(va[1][3])
+        reach_run = {}
+        for var, tgt in sorted(sw[3].items()):
+            region = M.dominated_region(g, tgt) if len(g.preds()[tgt]) == 1 else {tgt}
+            runs = []
+            for b in region:
+                t = g.blocks[b]["t"]
+                if t[0] == "call" and t[1].get("d") in fx.fns and t[1].get("local"):
+                    c = fx.fns[t[1]["d"]].parent
+                    if c not in reach_run:
+                        reach_run[c] = RUN in M.reachable_fns(fx, [c])
+                    if reach_run[c]:
+                        runs.append(c.split("::")[-1])
+            if not runs:
+                continue
+            ok = var in vm_arms
+            ck.instance("R1c.trampoline-covers", "JsFunction::%s (runs script through %s)" % (var, ", ".join(sorted(set(runs))[:2])), F.short_span(g.span), ok=ok)
+            if not ok:
+                ck.finding("R1c.trampoline-covers", "R1c.trampoline-covers/" + var, F.short_span(va[0].span),
+                           "calling a JsFunction::%s runs script (%s) but BytecodeVM::setup_trampoline_call has no arm for it: called from bytecode it falls to the generic "
+                           "path, which runs it in a nested VM on the native stack inside one step() - step and depth budgets of the host do not see it"
+                           % (var, ", ".join(sorted(set(runs))[:2])))
+
     # ---------------- R4
     ck.rule("R4.size-taint", "script-controlled sizes reaching allocation sinks are bounded", floor=25)
     for f, bi, t, d, tainted, bnd in S.sites(fx):
